@@ -12,7 +12,8 @@ Per generated VCF the REAL CLI `whatshap stats --tsv --block-list --gtf [--only-
     and the GTF equal the Lean model of the repaired code; if not, the faithful model of HEAD decides whether the
     difference is the known defect F5 (missing genotype counted heterozygous) / F5b (PS value '.' -> block None).
   * the whole of `run_stats` is inside the model (`c12.run`): `unpack_chromosomes`, plain iteration vs indexed fetch in the
-    given order (40 % of the sorted files are bgzipped + tabix-indexed), `--chromosome` filter, early exit, seen set, presence
+    given order (40 % of the sorted files are bgzipped + tabix- or CSI-indexed, others bgzipped without index), records at the
+    first / second / last base of a contig and one past its declared length (round 7), `--chromosome` filter, early exit, seen set, presence
     of the ALL row, NG50 from header lengths or `--chr-lengths` (missing length -> nan).  Which chromosomes must be reported
     is also computed independently (the distinct wanted chromosomes of the file, once each).
   * stdout report: the integer lines of every section equal the TSV row of the same chromosome.
@@ -30,7 +31,8 @@ RULE = ("case = one generated VCF of one ploidy (1-6), 1-4 chromosomes, 1-3 samp
         "24*scale records per chromosome (SNV/indel/MNP/multi-ALT/no-ALT/'*'/<DEL>/ALT=REF, duplicated positions, rarely "
         "unsorted), calls het/hom/missing/partial, phased into 0-4 interleaved or contiguous phase sets per chromosome, phased "
         "calls without PS key or PS value, header contigs with or without length, optional --chr-lengths file, plain or "
-        "bgzipped+tabix-indexed, run with random --only-snvs / --chromosome (comma lists, repeated, unknown, empty names) / "
+        "bgzip-compressed without index or compressed with a tabix or CSI index; half of the files with records at the edges of "
+        "a contig (POS 1, POS 2, the last two bases, the first position past the declared length; contigs of 1-6 bases), run with random --only-snvs / --chromosome (comma lists, repeated, unknown, empty names) / "
         "--sample; plus in-process calls of n50 / compute_ng50 / unpack_chromosomes on small random arguments; non-trivial iff "
         "stats succeeded and some processed chromosome has a block of >= 2 variants; distinct = distinct (file text, options)")
 MANIFEST = dict(
@@ -336,7 +338,7 @@ def _run(ctx, wd):
         cases = [c for _, c in ctx.corpus() if not c.get("function")]
         n = (56 if ctx.quick else 500) * ctx.scale
         for i in range(n):
-            cases.append(G.gen_case(rng, scale=1 if ctx.quick else rng.choice([1, 2, 4]), exotic=(i % 2 == 1)))
+            cases.append(G.gen_case(rng, scale=1 if ctx.quick else rng.choice([1, 2, 4]), exotic=(i % 2 == 1), boundary=(i % 4 >= 2)))
 
     # input files (pysam.tabix_index is not known to be thread-safe: sequentially)
     paths = []
@@ -345,8 +347,13 @@ def _run(ctx, wd):
         os.makedirs(d, exist_ok=True)
         vcf = os.path.join(d, "in.vcf")
         open(vcf, "w").write(G.vcf_text(case))
-        if case.get("indexed"):
-            vcf = pysam.tabix_index(vcf, preset="vcf", force=True)
+        storage = case.get("storage") or ("tbi" if case.get("indexed") else "plain")
+        if storage in ("tbi", "csi"):
+            vcf = pysam.tabix_index(vcf, preset="vcf", force=True, csi=(storage == "csi"))
+        elif storage == "bgzip":        # compressed, no index: the file is iterated even with --chromosome
+            pysam.tabix_compress(vcf, vcf + ".gz", force=True)
+            os.remove(vcf)
+            vcf = vcf + ".gz"
         if case.get("chr_lengths") is not None:
             with open(os.path.join(d, "lengths.tsv"), "w") as f:
                 for n_, l_ in case["chr_lengths"]:
@@ -394,6 +401,17 @@ def judge(ctx, case, res):
     ctx.dist("kind", case["kind"]); ctx.dist("ploidy", case["ploidy"])
     ctx.dist("options", "+".join(k for k in ("only_snvs", "chromosomes", "sample", "indexed", "chr_lengths") if case.get(k)) or "plain")
     ctx.dist("records", min(len(case["records"]), 60) // 10 * 10)
+    ctx.dist("storage", case.get("storage") or ("tbi" if case.get("indexed") else "plain"))
+    for c in file_chromosomes(case):
+        ln = case["contigs"].get(c)
+        pos = {r["pos"] for r in case["records"] if r["chrom"] == c}
+        edges = [n for n, p in (("POS1", 1), ("POS2", 2), ("last-1", (ln or 0) - 1), ("last", ln), ("past-end", (ln or 0) + 1))
+                 if (ln is not None or p in (1, 2)) and p in pos]
+        if edges:
+            wanted = (not given) or c in given
+            ctx.dist("contig_edge_records", ("fetched" if case.get("indexed") and given else "iterated") + ("" if wanted else "-not-wanted"))
+            for e in edges:
+                ctx.dist("contig_edge", e)
     ctx.dist("header_lengths", "all" if all(l is not None for l in case["contigs"].values()) else "some-missing")
     if given:
         ctx.dist("given", ("indexed" if case.get("indexed") else "plain") + ("+dup" if len(set(given)) < len(given) else "")
